@@ -3,7 +3,7 @@
 # sources with the patch applied) and reports whether a VIOLATION is raised.
 # usage: seed_regress.sh [seed-name ...]
 cd "$(dirname "$0")/.."
-seeds="$@"; [ -z "$seeds" ] && seeds=$(ls seeded)
+seeds="$@"; [ -z "$seeds" ] && seeds=$(ls seeded | grep -v "^_")
 for s in $seeds; do
   prop=$(python3 -c "import json;print(json.load(open('seeded/$s/meta.json'))['property'])")
   M=/tmp/seedreg.$$.$s; mkdir -p $M
